@@ -1311,6 +1311,17 @@ class LifecycleMonitor:
                     sess.violation(
                         'c06:cancelled-before-start-wrong-status',
                         'task %s cancelled before start ended as %s' % (name, final))
+                else:
+                    # nothing can overtake a cancellation that took effect before the first
+                    # activation: the stored outcome is that TaskCancelled, whatever happens
+                    # to the scope of the task afterwards
+                    stored = task.__exception__
+                    if not isinstance(stored, TaskCancelled) or tuple(stored.args) != first[1] \
+                            or stored.subject is not task:
+                        sess.violation(
+                            'c06:cancel-outcome-overwritten',
+                            'task %s was cancelled with token %r before its first activation; '
+                            'its stored outcome is %r' % (name, first[1], stored))
             else:
                 sess.stats['c06_cancel_running'] += 1
             for awaiter, kind, ident, when, subject_ok, args in env.await_results.get(name, ()):
